@@ -142,7 +142,9 @@ class LMNN(MahalanobisMixin, TransformerMixin):
                     ' version 0.6.3 and will be removed in 0.7.0'
                     '', FutureWarning)
       n_neighbors = k
-    self.k = 'deprecated'  # To avoid no_attribute error
+      k = 'deprecated'
+    # (the object given is stored: sklearn's `clone` checks identity)
+    self.k = k
     self.n_neighbors = n_neighbors
     self.min_iter = min_iter
     self.max_iter = max_iter
